@@ -115,7 +115,7 @@ Theorem C09_every_change_is_reset : forall q st o, WFI st -> step_exact st o ->
   FR st (fst (step q st o)) (rids (step_trace q st o)).
 Proof. exact step_frame. Qed.
 Print Assumptions C09_every_change_is_reset.
-(* hence one step (operation, rebind with skip_notification, query) keeps every memoised fact valid *)
+(* hence one step (operation, rebind with skip_notification / notify_parents, query) keeps every memoised fact valid *)
 Theorem C09_fresh_step : forall q xs o, WFI (x_st xs) -> covered (x_st xs) o -> Fresh xs -> Fresh (fst (fst (step2 q xs o))).
 Proof. exact step2_fresh. Qed.
 Print Assumptions C09_fresh_step.
@@ -126,8 +126,9 @@ Theorem C09_query_answers_fresh : forall st c n f, WFI st -> Fresh (mkX st c) ->
 Proof. exact query_fresh. Qed.
 Print Assumptions C09_query_answers_fresh.
 (* after ANY history from any constructed forest: for every live node, what it reports = what a computation from scratch gives.
-   [history_ok]: rebind(..., notify_parents=False) is not covered, and where the identity test of sort()/reverse() finds that no
-   position holds another object the items are the same list (opaque leaves with one identity have one content) -- Example hist_ok *)
+   [history_ok] only says: where the identity test of sort()/reverse() finds that no position holds another object, the items are the
+   same list (an opaque leaf identity has one content; true of Python objects) -- Example hist_ok.  Every operation of the catalogue,
+   rebind with any skip_notification / notify_parents, and every query pattern is covered *)
 Theorem C09_fresh : forall q ls ops n,
   forallb lit_valid ls = true ->
   let xs0 := mkX (init_forest ls empty_state) no_caches in
